@@ -5,3 +5,6 @@ pub mod syntax;
 pub mod schema;
 pub mod json;
 pub mod schema_mut;
+pub mod operation;
+pub mod opmutate;
+pub mod opfixture;
